@@ -29,9 +29,11 @@ def plotLabels (nodes : List Str) (aliases : List (Str × Str)) : Except (ErrKin
     .ok (nodes.map fun n => (n, createLabel sorted aliases n))
 
 /-- the keyword arguments of `draw` as the drawing backend receives them: `spacing` is popped and
-    replaced by `pos`, `aliases` by `labels`, everything else is passed through untouched. -/
+    replaced by `pos`, `aliases` by `labels`, everything else is passed through untouched.
+    `other key val`: any other keyword with an opaque token standing for its value (the list is the
+    `kwargs` dict in insertion order). -/
 inductive KwArg
-  | spacing | aliases | pos | labels | other (name : Str)
+  | spacing | aliases | pos | labels | other (key val : Str)
 deriving DecidableEq, Repr
 
 def drawKwargs (kw : List KwArg) : List KwArg :=
